@@ -245,8 +245,12 @@ _U_DIST = ("forall(lambda c, k, l: implies(0 <= c and c < len(" + _ULL + ") and 
            + _ULL + "[c][k] != " + _ULL + "[c][l]))")
 _SROW_LEN = ("forall(lambda r: implies(0 <= r and r < len(self._shifts), len(self._shifts[r]) == len(self._rules[r].children) and "
              "len(self._rules[r].shifts) == len(self._rules[r].children)))")
+# an entry recorded as "rule r uses class c at position i" has a finite shift (it was finite when recorded, stays finite under
+# +1/-1, and is dropped from the record when it becomes infinite)
+_U_FIN = ("forall(lambda c, k: implies(0 <= c and c < len(" + _ULL + ") and 0 <= k and k < len(" + _ULL + "[c]), "
+          "not is_none(self._shifts[" + _ULL + "[c][k][0]][" + _ULL + "[c][k][1]])))")
 _IDX_WF = ["wf(self._rules_using_class)", "wf(self._rules_pumping_class)", _HIST_APART, _P_ALL_OK, _P_ALL_DIST, _SROWS_DISTINCT, _SROWS_ALLOC,
-           _P_PARENT, _P_COMPLETE, _U_SOUND, _U_DIST, _SROW_LEN]
+           _P_PARENT, _P_COMPLETE, _U_SOUND, _U_DIST, _SROW_LEN, _U_FIN]
 # SHIFTS NEVER OVERESTIMATE (the soundness half of shift coherence): for a rule whose parent is finite, an infinite shift means the
 # child is infinite, and a finite shift of a finite child is at most  value(child) + declared shift - value(parent)
 _FVP = _TFV.format(k="self._rules[r].parent")
@@ -320,13 +324,16 @@ contract(F, "TableMethod.add_rule_key", props=["C03", "C11"], lenient=True, alia
          requires=[_WFKEY.format(k="rule_key")] + _TBL_INV,
          ensures=_TBL_INV + ["len(self._rules) == old(len(self._rules)) + 1", "self._rules[len(self._rules) - 1] == rule_key",
                   "forall(lambda i: implies(0 <= i and i < old(len(self._rules)), self._rules[i] == old(self._rules[i])))"],
-         # exception freedom of the propagation is NOT proved (it needs the invariants of the two untracked index structures)
-         may_raise=["AssertionError", "IndexError", "ValueError"],
+         # of the propagation only AssertionError (the asserts of _set_infinite) and IndexError (queue contents) are not excluded
+         may_raise=["AssertionError", "IndexError"],
          # registration: once a rule with a finite parent is stored, every child position whose class is still finite is
          # recorded among the rules using that class (so that a later increase of the child reaches this rule's shift),
          # the rule is recorded among those pumping its parent, and it is queued
          ghost={"wit": Map(Int, Int)},        # position of the entry recorded for child j in the row of its class
-         ghost_stmts={"after:~self._shifts.append(": ["assert " + _SROW_LEN, "assert " + _U_SOUND, "assert " + _SILE],
+         ghost_stmts={"after:~self._shifts.append(": ["assert " + _SROW_LEN, "assert " + _U_SOUND, "assert " + _SILE,
+                          # the new row: finite parent and finite child give a finite shift
+                          "assert forall(lambda i: implies(0 <= i and i < len(rule_key.children) and not is_none(" + _TFV.format(k="rule_key.parent") + ") and "
+                          "not is_none(" + _TFV.format(k="rule_key.children[i]") + "), not is_none(self._shifts[len(self._shifts) - 1][i])))"],
                       "after:~self._rules_pumping_class[rule_key.parent].append(rule_idx)": [
                           "self.posP = mset(self.posP, rule_idx, len(" + _PL + "[rule_key.parent]) - 1)",
                           "assert " + _P_COMPLETE],
@@ -344,7 +351,10 @@ contract(F, "TableMethod.add_rule_key", props=["C03", "C11"], lenient=True, alia
                                        "assert rule_idx == len(self._rules) - 1", "assert " + _PUMP_LAST]},
          # (only what the loop can change is restated: function lists and the rows of rules using a class; the rest of the
          # table invariant is about locations outside the loop's frame)
-         loops={0: dict(invariant=[_NONNEG, "wf(self._rules_using_class)", _P_COMPLETE, _SILE, _U_SOUND,
+         loops={0: dict(invariant=[_NONNEG, "not is_none(" + _TFV.format(k="rule_key.parent") + ")", "wf(self._rules_using_class)", _P_COMPLETE, _SILE, _U_FIN,
+                                   "forall(lambda i: implies(0 <= i and i < len(rule_key.children) and not is_none(" + _TFV.format(k="rule_key.parent") + ") and "
+                                   "not is_none(" + _TFV.format(k="rule_key.children[i]") + "), not is_none(self._shifts[rule_idx][i])))",
+                                   _U_SOUND,
                                    # entries of the new rule are those of the positions met so far; every other entry is of an older rule
                                    "forall(lambda c, k: implies(0 <= c and c < len(" + _ULL + ") and 0 <= k and k < len(" + _ULL + "[c]), "
                                    + _ULL + "[c][k][0] < rule_idx or (" + _ULL + "[c][k][0] == rule_idx and " + _ULL + "[c][k][1] < _i0)))",
@@ -443,7 +453,7 @@ contract(F, "ForestRuleExtractor._is_productive", props=["C11"], lenient=True, a
          requires=["self.root_label >= 0",
                    "forall(lambda i: implies(0 <= i and i < len(rule_keys), " + _WFKEY.format(k="rule_keys[i]") + "))"],
          locals={"ruledb": Obj("TableMethod")},
-         may_raise=["AssertionError", "IndexError", "ValueError"],     # from the propagation (exception freedom not proved)
+         may_raise=["AssertionError", "IndexError"],     # from the propagation (see _process_queue)
          # the verdict is the pumping status of the root in a table that received every given key (and only those), in order
          loops={0: dict(invariant=tbl_inv("ruledb") + ["fresh(ruledb)", "len(ruledb._rules) == _i0",
                                    "forall(lambda j: implies(0 <= j and j < _i0, ruledb._rules[j] == rule_keys[j]))"],
@@ -483,7 +493,7 @@ contract(F, "ForestRuleExtractor._minimize_key", props=["C11"], lenient=True, al
                    "forall(lambda k=RuleBucket: implies(k in self.rule_by_bucket, not same(self.rule_by_bucket[k], self.needed_rules)))",
                    "forall(lambda k=RuleBucket, l=RuleBucket: implies(k in self.rule_by_bucket and l in self.rule_by_bucket and k != l, "
                    "not same(self.rule_by_bucket[k], self.rule_by_bucket[l])))"],
-         may_raise=["RuntimeError", "AssertionError", "IndexError", "ValueError"], asserts="raise",
+         may_raise=["RuntimeError", "AssertionError", "IndexError"], asserts="raise",
          ensures=["len(self.rule_by_bucket[key]) == 0",
                   # the other buckets are not touched
                   "forall(lambda k=RuleBucket: (k in self.rule_by_bucket) == old(k in self.rule_by_bucket))",
@@ -528,7 +538,7 @@ _OTHERS_SAME = ("forall(lambda k: implies(0 <= k and k != comb_class, " + _TFV.f
 contract(F, "TableMethod._increase_value", props=["C03"], lenient=True, aliases=FAL,
          params={"self": Obj("TableMethod"), "comb_class": Int, "rule_idx": Int},
          requires=["comb_class >= 0", "self._gap_size >= 1", _NONNEG, _ROWS_APART, _PARENTS_OK, _SILE] + _IDX_WF,
-         may_raise=["AssertionError", "IndexError", "ValueError"], asserts="raise",
+         may_raise=[], asserts="raise",
          ensures=_IDX_WF + [_SILE, "implies(called_after('Function.increase_value', 'TableMethod._increase_value'), "
                   "self._current_gap[0] == last_result('Function.preimage_gap'))",
                   # the value of the class goes up by at most one; an infinite value and every other class are untouched
@@ -586,7 +596,7 @@ contract(F, "TableMethod._set_infinite", props=["C03"], lenient=True, aliases=FA
          requires=["comb_class >= 0", _NONNEG, _ROWS_APART, _PARENTS_OK, _SILE] + _IDX_WF,
          # a class is declared infinite only from above the gap and only when nothing is left to process
          raises=[("AssertionError", "not is_none(" + _CCV + ") and (val(" + _CCV + ") <= self._current_gap[1] or len(self._processing_queue) > 0)")],
-         may_raise=["IndexError"], asserts="raise",
+         may_raise=[], asserts="raise",
          ensures=_IDX_WF + [_SILE, "is_none(" + _CCV + ")", _OTHERS_SAME, _NONNEG,
                   "self._function._infinity_count == old(self._function._infinity_count) + ite(is_none(old(" + _CCV + ")), 0, 1)",
                   "self._current_gap == old(self._current_gap)",
@@ -594,14 +604,19 @@ contract(F, "TableMethod._set_infinite", props=["C03"], lenient=True, aliases=FA
          loops={0: dict(invariant=[_TFV_AT("loop0"), _PARENTS_OK] + _IDX_WF, modifies=["*self._rules_using_class._list", "all:List(Tup(Int, Int))"]),
                 1: dict(invariant=[_TFV_AT("loop1"), _PARENTS_OK] + _IDX_WF, modifies=["*self._rules_using_class._list", "all:List(Tup(Int, Int))"]),
                 # the entries recorded for the class become infinite, nothing else in the table moves
-                2: dict(invariant=[_TFV_AT("loop2")] + _IDX_WF + [
-                    "comb_class < len(" + _ULL + ")",
+                2: dict(invariant=[_TFV_AT("loop2")] + [x for x in _IDX_WF if x is not _U_FIN] + [
+                    # (the entries of the class's own row are being made infinite; the row is cleared right after the loop)
+                    _U_FIN.replace("0 <= c and c < len(", "c != comb_class and 0 <= c and c < len(", 1),
+                    "comb_class < len(" + _ULL + ")", _UROW_RANGE,
                     "forall(lambda r: implies(0 <= r and r < len(self._shifts), len(self._shifts[r]) == at('loop2', len(self._shifts[r]))))",
                     "forall(lambda k: implies(0 <= k and k < _i2, is_none(" + _UENT.format(k="k") + ")))",
                     "forall(lambda r, i: implies(0 <= r and r < len(self._shifts) and 0 <= i and i < len(self._shifts[r]) and "
                     "forall(lambda k: implies(0 <= k and k < _i2, not (" + _UROW + "[k][0] == r and " + _UROW + "[k][1] == i))), "
                     "self._shifts[r][i] == at('loop2', self._shifts[r][i])))"],
                         modifies=["all:List(Opt(Int))", "*self._processing_queue"])},
+         ghost_stmts={"before:~shifts[class_idx] = None": ["assert 0 <= rule_idx and rule_idx < len(self._shifts)",
+                                                          "assert same(shifts, self._shifts[rule_idx])",
+                                                          "assert 0 <= class_idx", "assert class_idx < len(shifts)"]},
          modifies=["*self._processing_queue"] + _TM_FUN + _TM_IDX,
          notes="the class becomes infinite, every other value is untouched; refused (assertion) below the gap or with work queued")
 
@@ -625,7 +640,10 @@ _PQ_INV = _TBL_INV
 contract(F, "TableMethod._process_queue", props=["C03"], lenient=True, aliases=FAL,
          params={"self": Obj("TableMethod")},
          requires=_PQ_INV,
-         may_raise=["AssertionError", "IndexError", "ValueError"],
+         # IndexError: the queue and the holding set are not known to hold valid rule indices (a deque's items sit behind an offset,
+         # over which the solvers do not instantiate); AssertionError: the two asserts of _set_infinite need an invariant about the
+         # rules held back.  _increase_value itself is proved free of exceptions.
+         may_raise=["AssertionError", "IndexError"],
          call_requires={
              "TableMethod._increase_value": ["comb_class == " + _KEYOF + ".parent", _ALL_POS, _JUSTIFIED],
              "TableMethod._set_infinite": ["len(caller_self._processing_queue) == 0",
@@ -660,7 +678,7 @@ contract(F, "ForestRuleExtractor._minimize", props=["C11"], lenient=True, aliase
              # first REVERSE, then NORMAL, EQUIV, VERIFICATION -- nothing is minimised before the reverse rules
              "implies(_i0 == 0, key == bucket('REVERSE'))", "implies(_i0 == 1, key == bucket('NORMAL'))",
              "implies(_i0 == 2, key == bucket('EQUIV'))", "implies(_i0 == 3, key == bucket('VERIFICATION'))", "_i0 <= 3"]},
-         may_raise=["RuntimeError", "AssertionError", "IndexError", "ValueError"],
+         may_raise=["RuntimeError", "AssertionError", "IndexError"],
          loops={0: dict(invariant=[], modifies=_MK_MODS)},
          modifies=_MK_MODS,
          notes="order of minimisation")
@@ -680,7 +698,7 @@ contract(F, "RuleDBForest._add_empty_rule", props=["C03"], verify=False, aliases
          trusted_reason="may call searcher.add_rule (recursion into the expansion machinery, which ends in this database's add): only "
                         "its frame is used -- the table keeps its invariant (add's own postcondition)",
          params={"self": Obj("RuleDBForest"), "ends": Seq(Int), "rule": Obj("Rule")},
-         ensures=["wf(self)"], may_raise=["AssertionError", "IndexError", "ValueError", "StrategyDoesNotApply"],
+         ensures=["wf(self)"], may_raise=["AssertionError", "IndexError", "StrategyDoesNotApply"],
          modifies=["*self._already_empty", "all:Obj('TableMethod')", "all:List(ForestRuleKey)", "all:List(List(Opt(Int)))", "all:List(Int)",
                    "all:Deque(Int)", "all:Set(Int)", "all:List(Opt(Int))", "all:Obj('Function')", "all:Obj('DefaultListInt')",
                    "all:List(List(Int))", "all:List(List(Tup(Int, Int)))", "all:List(Tup(Int, Int))", "all:Obj('DefaultListIdx')",
@@ -688,7 +706,7 @@ contract(F, "RuleDBForest._add_empty_rule", props=["C03"], verify=False, aliases
 contract(F, "RuleDBForest.add", props=["C03", "C11"], lenient=True, aliases=FAL,
          params={"self": Obj("RuleDBForest"), "start": Int, "ends": Seq(Int), "rule": Obj("Rule")},
          locals={"new_rule_keys": List(ForestRuleKey)},
-         may_raise=["AssertionError", "IndexError", "ValueError", "StrategyDoesNotApply"], asserts="raise",
+         may_raise=["AssertionError", "IndexError", "StrategyDoesNotApply"], asserts="raise",
          ensures=["wf(self)"],
          # reverse forms only when the database was built with reverse=True and the rule says it is reversible; one per child index
          call_requires={"Rule.to_reverse_rule": ["caller_self.reverse", "reversible_of(self)",
